@@ -17,9 +17,15 @@ THOROUGH_S = 15 * 60
 HANG_S = 90
 
 
+VARIANT_BUILDS = {"btree_seq": ("btree", ["--out", "btree_seq", "-fno-openmp"])}
+
+
 def build(harness, extra_flags=()):
     t0 = time.time()
-    r = run([os.path.join(VERIF, "dsim", "build.sh"), harness] + list(extra_flags), timeout=1800)
+    src = harness
+    if harness in VARIANT_BUILDS and not extra_flags:
+        src, extra_flags = VARIANT_BUILDS[harness]
+    r = run([os.path.join(VERIF, "dsim", "build.sh"), src] + list(extra_flags), timeout=1800)
     if r.returncode != 0:
         log(r.stdout[-3000:])
         log(r.stderr[-6000:])
@@ -470,9 +476,13 @@ def check(prop, harness_specs, tier, assumptions, expected_probes=()):
     exes = {}
     # build all harnesses first (in parallel)
     procs = []
+    norm = []
     for name, flags, share in harness_specs:
-        procs.append((name, subprocess.Popen([os.path.join(VERIF, "dsim", "build.sh"), name] + list(flags), stdout=subprocess.PIPE,
-                                             stderr=subprocess.STDOUT, text=True)))
+        outname = flags[flags.index("--out") + 1] if "--out" in flags else name
+        norm.append((outname, flags, share))
+        procs.append((outname, subprocess.Popen([os.path.join(VERIF, "dsim", "build.sh"), name] + list(flags), stdout=subprocess.PIPE,
+                                                stderr=subprocess.STDOUT, text=True)))
+    harness_specs = norm
     for name, p in procs:
         out, _ = p.communicate()
         if p.returncode != 0:
